@@ -40,17 +40,33 @@ WB_ASSUMED = [('src/parallel.rs', 'impl TmpNodesReader', 'to_insert'), ('src/par
               ('src/parallel.rs', "impl<'a, DE: BytesEncode<'a>> TmpNodes<DE>", 'into_bytes_reader')]
 FROZEN_ASSUMED = [('src/parallel.rs', "impl<'t, D: Distance> ImmutableLeafs<'t, D>", 'get'), ('src/parallel.rs', "impl<'t, D: Distance> ImmutableTrees<'t, D>", 'get')]
 
+BUILD_CHAIN = {'insert_driver': ['Writer::insert_items_in_current_trees'], 'iict_lib': None,
+               'incr_driver': ['Writer::incremental_index_large_descendants'], 'incr_lib': None,
+               'build': ['Writer::build', 'meta_roots_'], 'build_lib': None}
+TMP = "impl<'a, DE: BytesEncode<'a>> TmpNodes<DE>"
+BUILD_ASSUMED = [('src/writer.rs', 'impl<D: Distance> Writer<D>', 'insert_items_in_tree'), ('src/writer.rs', 'impl<D: Distance> Writer<D>', 'pre_process_items'),
+                 ('src/writer.rs', 'impl<D: Distance> Writer<D>', 'used_tree_node'),
+                 ('src/parallel.rs', "impl<'t, D: Distance> ImmutableTrees<'t, D>", 'new'), ('src/parallel.rs', "impl<'t, D: Distance> ImmutableTrees<'t, D>", 'sub_tree_from_id'),
+                 ('src/parallel.rs', "impl<'t, D: Distance> ImmutableTrees<'t, D>", 'empty'),
+                 ('src/parallel.rs', TMP, 'new'), ('src/parallel.rs', TMP, 'new_in'), ('src/parallel.rs', TMP, 'remap'), ('src/parallel.rs', TMP, 'put'), ('src/parallel.rs', TMP, 'remove')]
+BUILD_TRUSTED = [
+    'A5 (build-level, not proved): while the id generator of a build is alive, every tree id of the index in the database was present when the generator was created or was issued by it; hence an id it returns is not a tree key of the current view (ConcurrentNodeIds::next_v_) nor of the view a staging area was created under (TmpNodes::taken, rules R12/R12b/R14); axiom_generator_covers ties this to the set passed to ConcurrentNodeIds::new',
+    'A6: insert_items_in_tree (rayon map over the roots) returns, per root, a staging area satisfying the PROVED contract of insert_items_in_file for a fresh staging area, and the ids handed to different roots are different (C13); pre_process_items only rewrites item leaves of the index in place (no key added or removed, encoded length kept); used_tree_node (A1) reports every tree id of the index; ImmutableTrees::new / sub_tree_from_id freeze every tree node / exactly the subtree (assumed contracts in units/lib/frozen_build.rs, drift-guarded)',
+    'ghost parameter: incremental_index_large_descendants receives the roots of the forest as a ghost argument (//@ghostparam, //@ghostarg Ghost(roots@) at its call in build); erased at run time',
+    'precondition of build: index_inv (tree keys hold tree nodes, leaves have one length, and when metadata exists: the forest it records is well formed over metadata.items with buckets within the capacity, and an id without an updated mark is stored iff the trees hold it); build re-establishes it (built ==> index_inv); that add_item / del_item / clear preserve it is the mark discipline of C06 (sync clause not re-proved per operation)',
+]
 PROPS = {
     'C01': {
         'verus': {'forest_lib': None,
                   'tree_delete': ['Writer::delete_items_in_file', 'Writer::fit_in_descendant', 'lemma_del_common', 'lemma_del_fit', 'lemma_del_one_side_empty', 'lemma_del_keep'],
                   'tree_insert': TREE_INSERT, 'tree_make': TREE_MAKE, 'tree_drivers': TREE_DRIVERS, 'drivers_lib': None, 'writeback_lib': None,
-                  'leafs_new': ['ImmutableLeafs::new'],
-                  'writer_scans': ['Writer::item_indices', 'Writer::reset_and_retrieve_updated_items', 'Writer::clear_db_and_create_a_single_leaf', 'clear_tree_nodes']},
-        'assumed_fns': [('src/parallel.rs', "impl<'a, DE: BytesEncode<'a>> TmpNodes<DE>", 'put'), ('src/parallel.rs', "impl<'a, DE: BytesEncode<'a>> TmpNodes<DE>", 'remove'),
-                        ('src/parallel.rs', "impl<'a, DE: BytesEncode<'a>> TmpNodes<DE>", 'remap'), ('src/parallel.rs', 'impl TmpNodesReader', 'to_insert'),
-                        ('src/parallel.rs', 'impl TmpNodesReader', 'to_delete')] + FROZEN_ASSUMED + MAKE_ASSUMED + WB_ASSUMED,
-        'not_decided': [],
+                  'leafs_new': ['ImmutableLeafs::new'], 'tree_count': ['Writer::fit_in_descendant', 'target_n_trees'],
+                  'writer_scans': ['Writer::item_indices', 'Writer::reset_and_retrieve_updated_items', 'Writer::clear_db_and_create_a_single_leaf', 'clear_tree_nodes'],
+                  **BUILD_CHAIN},
+        'assumed_fns': FROZEN_ASSUMED + MAKE_ASSUMED + WB_ASSUMED + BUILD_ASSUMED,
+        'trusted': BUILD_TRUSTED,
+        'not_decided': ['that the reader-visible forest (Reader::open on the metadata written by build) is the one `built` describes is the conjunction of this contract with Reader::open (C05/C06 unit reader_open); not restated as one lemma',
+                        'termination of the build (C14)'],
     },
     'C02': {
         'verus': {'reader_search': ['Reader::nns', 'Reader::nns_by_leaf', 'NodeId::unwrap_item'], 'forest_lib': None,
@@ -83,19 +99,25 @@ PROPS = {
     'C07': {
         'verus': {'store': KEYS + ['Writer::add_item', 'Writer::append_item', 'Writer::del_item', 'Writer::clear'],
                   'writer_scans': ['Writer::item_indices', 'Writer::reset_and_retrieve_updated_items', 'Writer::clear_db_and_create_a_single_leaf',
-                                   'Writer::prepare_changing_distance', 'clear_tree_nodes', 'lemma_tree_range']},
+                                   'Writer::prepare_changing_distance', 'clear_tree_nodes', 'lemma_tree_range'],
+                  'tree_drivers': TREE_DRIVERS, 'insert_driver': ['Writer::insert_items_in_current_trees'], 'incr_driver': ['Writer::incremental_index_large_descendants'],
+                  'build': ['Writer::build']},
         'kani': {'quick': [('key_layout', KEY_LAYOUT_ALL)]},
+        'assumed_fns': WB_ASSUMED + BUILD_ASSUMED,
+        'trusted': ['build and its drivers: the frame clause same_except(old, final, index, ..) is an UNCONDITIONAL postcondition (it also holds on every error exit); the glue functions insert_items_in_tree / pre_process_items / used_tree_node are assumed to stay within the index (A6)'],
         'not_decided': [],
     },
     'C10': {
         'verus': {'tree_delete': ['Writer::delete_items_in_file', 'lemma_del_fit', 'lemma_del_one_side_empty', 'lemma_del_keep', 'lemma_del_common'],
                   'tree_insert': TREE_INSERT, 'tree_make': TREE_MAKE, 'tree_drivers': TREE_DRIVERS, 'leafs_new': ['ImmutableLeafs::new'],
-                  'writer_scans': ['Writer::item_indices', 'Writer::reset_and_retrieve_updated_items', 'Writer::clear_db_and_create_a_single_leaf', 'clear_tree_nodes', 'NodeId::unwrap_item']},
-        'assumed_fns': FROZEN_ASSUMED + MAKE_ASSUMED + WB_ASSUMED + [('src/writer.rs', "impl BuildOption<'_>", 'cancelled')],
+                  'writer_scans': ['Writer::item_indices', 'Writer::reset_and_retrieve_updated_items', 'Writer::clear_db_and_create_a_single_leaf', 'clear_tree_nodes', 'NodeId::unwrap_item'],
+                  **BUILD_CHAIN},
+        'assumed_fns': FROZEN_ASSUMED + MAKE_ASSUMED + WB_ASSUMED + BUILD_ASSUMED + [('src/writer.rs', "impl BuildOption<'_>", 'cancelled')],
         'trusted': ['every heed / TmpNodes stand-in call and every poll of cancelled() may return an arbitrary Ok/Err: all fault sequences at all poll points are covered symbolically',
-                    'A1: used_tree_node swallows an error raised inside its try_fold (unwrap_or_default); harmless under the monotone callbacks the property quantifies over (DESIGN.md C10); that function is not under contract'],
+                    'A1: used_tree_node swallows an error raised inside its try_fold (unwrap_or_default); harmless under the monotone callbacks the property quantifies over (DESIGN.md C10); that function is not under contract',
+                    'Writer::build: r is Ok ==> built(..) (a complete, well-formed forest with its metadata), r is Err ==> the error is a heed/io error, BuildCancelled or DatabaseFull: Ok is never returned over a half-built forest, for every fault sequence at every poll point'] + BUILD_TRUSTED,
         'not_decided': ['abort restores the previous contents and a retry succeeds (LMDB, trusted)', 'temporary files and file descriptors are released (OS resources)',
-                        'build() itself and its loop drivers (delete_items_from_trees, insert_items_in_current_trees, insert_items_in_tree, incremental_index_large_descendants, make_tree_in_file, delete_extra_trees, delete_tree) are not under contract yet: "never Ok over a half-built forest" is decided only per function listed above'],
+                        'insert_items_in_tree (rayon glue) is assumed to propagate the errors of insert_items_in_file (A6)'],
     },
     'C20': {
         'verus': {'tree_delete': ['Writer::delete_items_in_file', 'lemma_del_fit', 'lemma_del_one_side_empty', 'lemma_del_keep', 'lemma_del_common'],
@@ -127,7 +149,10 @@ PROPS = {
                         'NodeCodec::bytes_decode of leaf / split values (CBMC does not finish on the boxed-error path); its parts NodeId::from_bytes, the tags and the vector size checks are proved'],
     },
     'C05': {
-        'verus': {'store': KEYS + STORE_W, 'reader_open': KEYS + STORE_R, 'writer_scans': ['Writer::item_indices', 'NodeId::unwrap_item']},
+        'verus': {'store': KEYS + STORE_W, 'reader_open': KEYS + STORE_R, 'writer_scans': ['Writer::item_indices', 'NodeId::unwrap_item'],
+                  'build': ['Writer::build'], 'build_lib': None},
+        'assumed_fns': BUILD_ASSUMED,
+        'trusted': ['Writer::build: the set of stored item keys is unchanged and the metadata lists exactly it (built); pre_process_items may rewrite leaf headers in place (A6)'],
         'kani': {'quick': [('key_layout', ['key_byte_order_is_tuple_order', 'prefix_selects_exactly_its_index_and_kind']),
                            ('f32_codec', ['f32_from_slice_roundtrip_is_bit_exact', 'f32_from_vec_is_bit_exact']),
                            ('bq_codec', ['bq_roundtrip_len_3', 'bq_from_slice_len_65'])]},
@@ -136,16 +161,22 @@ PROPS = {
     'C06': {
         'verus': {'store': KEYS + ['Writer::add_item', 'Writer::append_item', 'Writer::del_item', 'Writer::clear', 'Writer::need_build'],
                   'reader_open': KEYS + ['Reader::open'],
-                  'writer_scans': ['Writer::reset_and_retrieve_updated_items', 'clear_tree_nodes', 'Writer::prepare_changing_distance', 'Writer::clear_db_and_create_a_single_leaf']},
+                  'writer_scans': ['Writer::reset_and_retrieve_updated_items', 'clear_tree_nodes', 'Writer::prepare_changing_distance', 'Writer::clear_db_and_create_a_single_leaf'],
+                  'build': ['Writer::build'], 'build_lib': None},
+        'assumed_fns': BUILD_ASSUMED,
+        'trusted': ['Writer::build Ok ==> metadata present and no updated mark left (built), i.e. the index is not stale afterwards'],
         'kani': {'quick': [('key_layout', ['prefix_selects_exactly_its_index_and_kind'])]},
         'not_decided': [],
     },
     'C13': {
-        'verus': {'node_ids': ['ConcurrentNodeIds::new', 'ConcurrentNodeIds::next', 'lemma_distinct_tickets_distinct_ids']},
+        'verus': {'node_ids': ['ConcurrentNodeIds::new', 'ConcurrentNodeIds::next', 'lemma_distinct_tickets_distinct_ids'],
+                  'insert_driver': ['Writer::insert_items_in_current_trees'], 'iict_lib': None, 'incr_driver': ['Writer::incremental_index_large_descendants'], 'incr_lib': None,
+                  'build': ['Writer::build'], 'build_lib': None},
+        'assumed_fns': BUILD_ASSUMED + WB_ASSUMED,
         'trusted': ['A-ticket: an atomic fetch_add never returns the same value twice before the counter wraps (the `used` budget check stops the generator before 2^32 requests); load()/store() give no ticket',
                     'RoaringBitmap::select is injective and returns members (axiom_nth, admitted)',
-                    'rayon and the two `unsafe impl Sync` are trusted: the per-root closures share only the id generator and read-only frozen views'],
-        'not_decided': ['the second sentence of C13 (a build yields a C01 forest for every thread-pool size) beyond: the contracts of the per-tree functions never depend on the order in which other threads run'],
+                    'rayon and the two `unsafe impl Sync` are trusted: the per-root closures share only the id generator and read-only frozen views'] + BUILD_TRUSTED,
+        'not_decided': ['the second sentence of C13 (a build yields a C01 forest for every thread-pool size): decided as "the build contract (C01) is proved from per-root results whose only interaction is that their fresh ids are pairwise different and not in the database (glue_post + A5)", for every schedule that satisfies the generator contract'],
     },
     'C14': {
         'verus': {'leafs_new': ['ImmutableLeafs::new'], 'tree_insert': TREE_INSERT,
@@ -158,10 +189,12 @@ PROPS = {
     },
     'C15': {
         'verus': {'tree_count': ['Writer::fit_in_descendant', 'target_n_trees'], 'writer_scans': ['Writer::clear_db_and_create_a_single_leaf'],
-                  'tree_insert': TREE_INSERT, 'tree_make': TREE_MAKE, 'tree_drivers': TREE_DRIVERS, 'drivers_lib': None, 'tree_delete': ['Writer::delete_items_in_file', 'lemma_del_fit', 'lemma_del_one_side_empty', 'lemma_del_keep', 'lemma_del_common']},
-        'assumed_fns': FROZEN_ASSUMED + MAKE_ASSUMED + WB_ASSUMED,
-        'trusted': ['the f64 hysteresis test of target_n_trees is an uninterpreted boolean'],
-        'not_decided': ['reader-visible tree count and bucket bound after a whole build: decided by the build-chain units (delete_extra_trees, missing-tree loop, bucket clauses) where claimed'],
+                  'tree_insert': TREE_INSERT, 'tree_make': TREE_MAKE, 'tree_drivers': TREE_DRIVERS, 'drivers_lib': None, 'tree_delete': ['Writer::delete_items_in_file', 'lemma_del_fit', 'lemma_del_one_side_empty', 'lemma_del_keep', 'lemma_del_common'],
+                  'reader_open': ['Reader::open', 'Reader::n_trees'], **BUILD_CHAIN},
+        'assumed_fns': FROZEN_ASSUMED + MAKE_ASSUMED + WB_ASSUMED + BUILD_ASSUMED,
+        'trusted': ['the f64 hysteresis test of target_n_trees is an uninterpreted boolean'] + BUILD_TRUSTED,
+        'not_decided': ['"searches on any non-empty index return results": follows from C02/C03 on a forest with at least one tree; not restated',
+                        'the bucket bound is proved for a build whose capacity equals the capacity of the previous build (index_inv is stated for one `cap`): a history that changes split_after between builds is outside the contract'],
     },
     'C17': {
         'verus': {'upgrade': ['from_0_5_to_0_6'], 'upgrade04': ['cosine_from_0_4_to_0_5', 'OldNodeMode::try_from']},
